@@ -416,6 +416,12 @@ impl CaaTag<[u8]> {
     }
 
     fn check_slice(octets: &[u8]) -> Result<(), ParseError> {
+        // RFC 8659, section 4.1: "The tag length MUST be at least 1."  An
+        // empty tag also has no presentation format: it would be written
+        // as nothing at all and the value be read as the tag.
+        if octets.is_empty() {
+            return Err(ParseError::form_error("empty CAA tag"));
+        }
         if octets.iter().any(|e| !e.is_ascii_alphanumeric()) {
             return Err(ParseError::form_error(
                 "CAA tag contains invalid character",
